@@ -217,6 +217,11 @@ func Layout(r *vh.Rng, d *TableDef) *MySQLOrder {
 	return &MySQLOrder{Def: d, Cols: cols, TableID: 1}
 }
 
+// Reopen returns the same table under a new TableID (as after FLUSH TABLES).
+func (m *MySQLOrder) Reopen() *MySQLOrder {
+	return &MySQLOrder{Def: m.Def, Cols: append([]ColMeta{}, m.Cols...), TableID: m.TableID + 1}
+}
+
 // Alter returns the table after an ALTER TABLE (new TableID) and says what kind it was:
 // "reorder" (columns moved, count kept), "swap" (two columns of the same MySQL type trade places: the old
 // column map still decodes without error), "add" (one more column), "drop" (an extra column removed) or
